@@ -209,7 +209,15 @@ static void on_signal(int sig)
     if (in)
         _exit(4);
     in = 1;
-    crash_report(sig == SIGALRM ? "hang: the schedule did not finish within the watchdog limit" : sig == SIGABRT ? "abort during a concurrent execution" : "fatal signal during a concurrent execution");
+    if (sig == SIGALRM)
+    {
+        // not a verdict: a genuine deadlock on the modelled mutexes is detected by the scheduler itself;
+        // a schedule that merely never finishes means a blocking primitive the scheduler does not model
+        static const char m[] = "HARNESS ERROR: a schedule did not finish within the watchdog limit (unmodelled blocking primitive or livelock)\n";
+        (void)!write(2, m, sizeof m - 1);
+        _exit(3);
+    }
+    crash_report(sig == SIGABRT ? "abort during a concurrent execution" : "fatal signal during a concurrent execution");
     _exit(1);
 }
 extern "C" void __sanitizer_set_death_callback(void (*)(void)) __attribute__((weak));
@@ -813,7 +821,7 @@ struct E2
             if (!results_match(p, c, o) || c.so.probe[0] != o.probe)
                 continue;
             match.push_back(&c);
-            if (c.so.dump == o.dump)
+            if (A::whitebox && c.so.dump == o.dump)
             {
                 exact = true;
                 break;
